@@ -263,8 +263,8 @@ def history_stage(chk, out):
 
 def run(chk):
     rng = random.Random(chk.seed)
-    cfg = tlc.cfg(invariants=["Emit", "Sound"])
-    r = chk.tlc("GqlIntrospect", cfg, tags=["INT"], label="GqlIntrospect base + single edits x includeDeprecated")
+    cfg = tlc.cfg(invariants=["Emit", "Sound"], constants={"TwoEdits": not chk.quick})
+    r = chk.tlc("GqlIntrospect", cfg, tags=["INT"], label="GqlIntrospect base + %s edits x includeDeprecated" % ("single" if chk.quick else "single and double"))
     if r.rc != 0:
         raise tlc.TLCError("GqlIntrospect: %s\n%s" % (r.violated, r.tail))
     cases = r.tagged("INT")
